@@ -2,6 +2,8 @@
 # tools/try_seed.sh <patch.diff> <check id>... : apply a seeded change to /repo, run the given
 # checks (quick tier unless TIER=thorough), and ALWAYS restore /repo afterwards.
 set -u
+# one user of /repo at a time (seeded patches must never be visible to another dev tool run)
+exec 9>/verif/target/.repo-dev.lock; flock 9
 patch="$1"; shift
 cd /repo || exit 2
 if ! git diff --quiet; then echo "refusing: /repo has uncommitted changes" >&2; exit 2; fi
